@@ -1,4 +1,6 @@
 import SpVerif.Lemmas.Winding
+import Mathlib.Tactic.Linarith
+import Mathlib.Tactic.Ring
 /-! C02: for a non-degenerate triangle the coded winding number about a strictly interior point is the orientation (±1). -/
 namespace SpVerif.Geom
 
@@ -64,5 +66,53 @@ theorem triangle_cw_inside (a b c p : Pt) (h1 : orientI a b p < 0) (h2 : orientI
   have e : [a, c, b, a].reverse = [a, b, c, a] := rfl
   rw [e] at hr
   rw [hr, triangle_ccw_inside a c b p (by rw [orientI_swap]; omega) (by rw [orientI_swap]; omega) (by rw [orientI_swap]; omega)]
+
+theorem orient_sum (a b c p : Pt) : orientI a b p + orientI b c p + orientI c a p = orientI a b c := by
+  unfold orientI; ring
+
+set_option maxHeartbeats 1600000 in
+/-- counter-clockwise triangle: the winding number is non-zero only inside the closed triangle (27 sign patterns of the three
+orientations x 8 height patterns of the vertices; the impossible ones are excluded by the barycentric identity `bary_y`) -/
+theorem triangle_ccw_nonzero_imp (a b c p : Pt) (hA : 0 < orientI a b c) (hW : windSum p [a, b, c, a] ≠ 0) :
+    0 ≤ orientI a b p ∧ 0 ≤ orientI b c p ∧ 0 ≤ orientI c a p := by
+  have hb := bary_y a b c p
+  have hs := orient_sum a b c p
+  simp only [windSum, edgeContrib_eq] at hW
+  rcases Int.lt_trichotomy (orientI a b p) 0 with o1 | o1 | o1 <;>
+  rcases Int.lt_trichotomy (orientI b c p) 0 with o2 | o2 | o2 <;>
+  rcases Int.lt_trichotomy (orientI c a p) 0 with o3 | o3 | o3 <;>
+  by_cases ga : p.2 ≤ a.2 <;> by_cases gb : p.2 ≤ b.2 <;> by_cases gc : p.2 ≤ c.2 <;>
+    first
+      | exact ⟨by omega, by omega, by omega⟩
+      | (exfalso
+         have la : (a.2 < p.2) ↔ ¬ p.2 ≤ a.2 := by omega
+         have lb : (b.2 < p.2) ↔ ¬ p.2 ≤ b.2 := by omega
+         have lc : (c.2 < p.2) ↔ ¬ p.2 ≤ c.2 := by omega
+         first
+           | (simp only [la, lb, lc, ga, gb, gc, o1, o2, o3, Int.le_refl, Int.lt_irrefl, not_true_eq_false, not_false_eq_true,
+                true_and, false_and, and_true, and_false, if_true, if_false] at hW; omega)
+           | nlinarith [hb, hs, hA])
+
+/-- counter-clockwise triangle, `p` strictly on the wrong side of some edge: winding number `0` -/
+theorem triangle_ccw_outside (a b c p : Pt) (hA : 0 < orientI a b c)
+    (hout : orientI a b p < 0 ∨ orientI b c p < 0 ∨ orientI c a p < 0) : windSum p [a, b, c, a] = 0 := by
+  by_cases h : windSum p [a, b, c, a] = 0
+  · exact h
+  · obtain ⟨h1, h2, h3⟩ := triangle_ccw_nonzero_imp a b c p hA h
+    omega
+
+/-- clockwise triangle, `p` strictly on the wrong side of some edge: winding number `0` -/
+theorem triangle_cw_outside (a b c p : Pt) (hA : orientI a b c < 0)
+    (hout : 0 < orientI a b p ∨ 0 < orientI b c p ∨ 0 < orientI c a p) : windSum p [a, b, c, a] = 0 := by
+  have hr := windSum_reverse p [a, c, b, a]
+  have e : [a, c, b, a].reverse = [a, b, c, a] := rfl
+  rw [e] at hr
+  have hA' : 0 < orientI a c b := by
+    have e1 : orientI a c b = - orientI a b c := by unfold orientI; ring
+    omega
+  have := triangle_ccw_outside a c b p hA' (by
+    rw [orientI_swap c a p, orientI_swap b c p, orientI_swap a b p]
+    omega)
+  rw [hr, this]; rfl
 
 end SpVerif.Geom
